@@ -35,14 +35,14 @@ type c14Case struct {
 }
 
 // kinds whose elements are bbolt keys / bucket names (non-empty by bbolt's own precondition)
-var c14PlainKinds = map[string]bool{"bolt": true, "open-seekable": true, "open-cursor": true, "setindex-keys": true, "iterate-ids": true, "iterate-valid-ids": true, "link-setlinks": true}
+var c14PlainKinds = map[string]bool{"bolt": true, "open-seekable": true, "open-cursor": true, "setindex-keys": true, "iterate-ids": true, "iterate-valid-ids": true, "link-setlinks": true, "link-add-remove-in-tx": true}
 
 var c14Kinds = []string{"bolt", "open-seekable", "open-cursor", "iterate-string-list", "iterate-string-list-dir", "open-typed-cursor", "related-entities",
 	"link-iterate", "rc-link-iterate", "setindex-value", "setindex-keys", "set-symbol-runtime", "iterate-ids", "iterate-valid-ids", "empty", "filtered",
-	"treeset", "union", "matching-allof", "matching-anyof", "link-setlinks"}
+	"treeset", "union", "matching-allof", "matching-anyof", "link-setlinks", "link-add-remove-in-tx"}
 
 // kinds that only go forward
-var c14ForwardOnly = map[string]bool{"open-seekable": true, "iterate-string-list": true, "link-iterate": true, "link-setlinks": true, "set-symbol-runtime": true, "iterate-ids": true, "iterate-valid-ids": true, "filtered": true, "empty": true}
+var c14ForwardOnly = map[string]bool{"open-seekable": true, "iterate-string-list": true, "link-iterate": true, "link-setlinks": true, "link-add-remove-in-tx": true, "set-symbol-runtime": true, "iterate-ids": true, "iterate-valid-ids": true, "filtered": true, "empty": true}
 
 var c14Universe = [][]byte{{}, []byte("a"), []byte("a\x00"), []byte("ab"), []byte("b"), {0xff}, {0xff, 0xff}, []byte("a\xff"), {0x05}, {0x07, 'x'}, []byte("B"),
 	// long elements that differ only after a common prefix of 63 / 64 / 130 bytes
@@ -92,7 +92,7 @@ func genC14(t *rapid.T) c14Case {
 	case "empty":
 	default:
 		c.Elems = genElems(t, "s", allowEmpty)
-		if c.Kind == "union" || c.Kind == "filtered" || c.Kind == "link-setlinks" {
+		if c.Kind == "union" || c.Kind == "filtered" || c.Kind == "link-setlinks" || c.Kind == "link-add-remove-in-tx" {
 			c.Elems2 = genElems(t, "s2", allowEmpty)
 		}
 	}
@@ -250,6 +250,38 @@ func buildCursor2(c c14Case, db *bbolt.DB) (open, second func(tx *bbolt.Tx) ast.
 				return err
 			}
 			return s.links.SetLinks(tx, "a1", reverseStrings(now))
+		})
+		open = func(tx *bbolt.Tx) ast.SetCursor { return s.links.IterateLinks(tx, []byte("a1")) }
+	case "link-add-remove-in-tx":
+		// single links are added and some of them removed again inside the same transaction
+		gone := map[string]bool{}
+		for _, e := range dedupSorted(c.Elems2) {
+			gone[e] = true
+		}
+		expect = nil
+		for _, e := range asc {
+			if !gone[e] {
+				expect = append(expect, e)
+			}
+		}
+		err = db.Update(func(tx *bbolt.Tx) error {
+			boltz.GetOrCreatePath(tx, "root", "as", "a1")
+			for _, e := range asc {
+				if b := boltz.GetOrCreatePath(tx, "root", "bs", e); b.HasError() {
+					return b.GetError()
+				}
+				if _, err := s.links.AddLink(tx, []byte("a1"), []byte(e)); err != nil {
+					return err
+				}
+			}
+			for _, e := range asc {
+				if gone[e] {
+					if _, err := s.links.RemoveLink(tx, []byte("a1"), []byte(e)); err != nil {
+						return err
+					}
+				}
+			}
+			return nil
 		})
 		open = func(tx *bbolt.Tx) ast.SetCursor { return s.links.IterateLinks(tx, []byte("a1")) }
 	case "rc-link-iterate":
